@@ -220,7 +220,9 @@ def run_case(case):
     fr, opts = case["frame"], case["opts"]
     labels = c01.features(case)
     if cases.required_with_missing(fr, opts):
-        return discard("missing category cell in a required column (invalid request, C18)", labels)
+        # a missing category cell in a column declared non-nullable: the write must refuse (C18); if it does not,
+        # the file it makes is examined like any other (a -1 dictionary index is not valid Parquet)
+        labels.append("required_categorical_with_missing_cell")
     scheme = opts.get("file_scheme", "simple")
     dpv = opts.get("dpv", 1)
     with common.Scratch() as d:
@@ -283,7 +285,7 @@ def run_case(case):
                             labels=labels)
             # (a text index becomes a `str` column through reset_index on pandas 3: not "object")
             is_obj = col["kind"] in ("text", "bytes", "json", "pyobj") and col.get("sub") != "str" and col is not fr.get("index")
-            optional = cases.col_optional(opts, name, is_obj)
+            optional = cases.col_optional(opts, name, is_obj, cat_missing=col["kind"] == "category" and cases.has_missing(col, n))
             if (leaf.max_def == 1) != optional and n > 0:
                 return viol("schema|repetition|%s" % tag, "column %r max_def=%d but has_nulls=%r implies optional=%r" % (name, leaf.max_def, opts.get("has_nulls"), optional),
                             labels=labels)
